@@ -358,6 +358,25 @@ type c15DetStep struct {
 	Diff     string `json:"diff,omitempty"`
 }
 
+// c15Colliding says whether two services of the description carry the same effective Name (outside the domain of
+// the theorems: no load produces it; dependentsForService then keeps one of two map entries in iteration order).
+func c15Colliding(st c15State) bool {
+	seen := map[string]bool{}
+	for _, m := range []map[string]c15Svc{st.Services, st.Disabled} {
+		for k, s := range m {
+			n := s.Name
+			if n == "" {
+				n = k
+			}
+			if seen[n] {
+				return true
+			}
+			seen[n] = true
+		}
+	}
+	return false
+}
+
 func c15RealDet(raw json.RawMessage) any {
 	var a c15Args
 	if err := json.Unmarshal(raw, &a); err != nil {
@@ -398,7 +417,7 @@ func c15RealDet(raw json.RawMessage) any {
 			cur = first
 		}
 	}
-	return map[string]any{"steps": steps}
+	return map[string]any{"steps": steps, "colliding": c15Colliding(a.Init)}
 }
 
 // ---------------------------------------------------------------- judges
@@ -489,13 +508,17 @@ func c15JudgeDet(args, real, _ json.RawMessage) *core.Verdict {
 		return v
 	}
 	var r struct {
-		Steps []c15DetStep `json:"steps"`
+		Steps     []c15DetStep `json:"steps"`
+		Colliding bool         `json:"colliding"`
 	}
 	if json.Unmarshal(real, &r) != nil || r.Steps == nil {
 		return core.Disagree("malformed real outcome")
 	}
 	for i, s := range r.Steps {
 		if s.Variants > 1 {
+			if r.Colliding {
+				s.Diff += ":colliding-names"
+			}
 			return core.Fail("nondeterministic:types.Project."+s.Func+":"+s.Diff,
 				fmt.Sprintf("step %d: %s repeated on the same receiver with the same arguments returns results that differ in %s", i, s.Func, s.Diff))
 		}
